@@ -169,7 +169,7 @@ def gen_jobs(ctx):
             inputs = inputs[: (300 if quick else 3000)]
         jobs.append((name, text, inputs, cap))
     # big counts
-    for n in ([12, 20, 28] if quick else [12, 25, 40, 60]):
+    for n in ([12, 20, 28, 40] if quick else [12, 25, 40, 60]):
         jobs.append(("ss_big%d" % n, "S: S S | 'a';", ["a" * n], cap))
     jobs.append(("expr_big", "E: E '+' E | E '*' E | 'n';",
                  ["n" + "+n*n" * k for k in ([2, 5] if quick else [2, 5, 8])], cap))
